@@ -3444,7 +3444,12 @@ impl Conv<&air::Module> for ProtoModule {
         // (derived clocks) are read only through `always_ff` sensitivity — both
         // are kept out of the candidate set.  Built here once so the key and the
         // miss-path pipeline share it.
-        let dce_protect: HashSet<VarOffset> = if dead_var_dce::enabled() {
+        // Comb fusion reuses this set as its "externals" (storage it must never retire), so it
+        // has to be built whenever EITHER pass runs — with DCE switched off and fusion on an empty
+        // set let fusion retire ports and user variables.
+        let dce_protect: HashSet<VarOffset> = if dead_var_dce::enabled()
+            || comb_fusion::enabled(context.config.use_4state)
+        {
             use veryl_analyzer::ir::VarKind;
             let mut protect: HashSet<VarOffset> = HashSet::default();
             for (vid, var) in &src.variables {
